@@ -17,6 +17,10 @@ RULE = ("Tree shapes: Catalan enumeration of every binary shape with 1..6 leaves
         "every single-byte alteration of sampled control blocks and raw leaf scripts, evaluated through "
         "Tx.verify_input; control-block codec at every length class (0, 32, 33, 34, 65, 33+32*128, 33+32*129), "
         "x = 0, x >= p, x not on the curve; tweaked private vs public key for secrets 1, n-1, random.")
+RULE += (" Reuse: ONE TapBranch/TapLeaf tree, ControlBlock, Witness, PrivateKey/S256Point object queried repeatedly (different "
+         "keys, leaves, scripts, merkle roots, in different orders and twice in a row) with in-place edits of every public "
+         "field in between, each answer compared with the BIP341 reference on the current state; tagged hashes called in "
+         "sequences over tags that are prefixes of each other.")
 TRUSTED = ["hashlib (sha256) — sha256 is a universally quantified function in the theorems",
            "secp256k1 group law, order and primality: the explicit hypothesis scalar_laws C of the algebraic "
            "theorems (instantiated on the toy curve for non-vacuity)",
